@@ -21,7 +21,7 @@ import (
 // events is executed on one cluster; a model says which attempts must succeed.
 
 type c12Op struct {
-	Kind  int // 9 sign cancelled while the signer of one node is still being prepared, 10 keygen with two extra KeyGen calls on one node while it runs; 0 keygen complete, 1 keygen one missing, 2 sign complete, 3 sign one missing, 4 sign cancelled midway, 5 two signs on different topics concurrently, 6 second sign on the same topic while the first runs, 7 replay recorded frames, 8 foreign frames (configured outsider / unknown node)
+	Kind  int // 9 sign cancelled while the signer of one node is still being prepared, 10 keygen with two extra KeyGen calls on one node while it runs; 0 keygen complete, 1 keygen one missing, 2 sign complete, 3 sign one missing, 4 sign cancelled midway, 5 two signs on different topics concurrently, 6 second sign on the same topic while the first runs, 7 replay recorded frames, 8 foreign frames (configured outsider / unknown node), 11 sign complete / 12 keygen complete while copies of the session's own live frames arrive under the source of the configured member that is not a participant (and of an unknown node)
 	Topic int
 	Who   int // missing party / cancelling party / duplicate caller (index)
 	At    int // deliveries before the cancellation / before the duplicate call
@@ -44,7 +44,7 @@ func genC12(t *rapid.T) c12Case {
 	n := rapid.IntRange(2, 8).Draw(t, "nops")
 	for i := 0; i < n; i++ {
 		c.Ops = append(c.Ops, c12Op{
-			Kind:  rapid.SampledFrom([]int{0, 1, 2, 2, 2, 3, 3, 4, 4, 5, 6, 7, 8, 9, 9, 10}).Draw(t, "kind"),
+			Kind:  rapid.SampledFrom([]int{0, 1, 2, 2, 2, 3, 3, 4, 4, 5, 6, 7, 8, 9, 9, 10, 11, 11, 12}).Draw(t, "kind"),
 			Topic: rapid.IntRange(0, 1).Draw(t, "topic"),
 			Who:   rapid.IntRange(0, 3).Draw(t, "who"),
 			At:    rapid.IntRange(0, 40).Draw(t, "at"),
@@ -61,6 +61,7 @@ type c12Info struct {
 	Overlaps      int
 	LateDelivered int
 	Foreign       int
+	LiveForeign   int // copies of live session frames under a non-participant's source, delivered while the session runs
 	StartAllFirst int // silent-mode repeats where the generator switch of known finding L20 was applied
 }
 
@@ -215,12 +216,35 @@ func runC12(c c12Case) *vh.Outcome {
 			return true
 		}
 
+		// liveForeign: while the next attempt runs, about every third protocol frame of the session is followed by a copy
+		// of itself under the source of the configured member that does not take part, or of an unknown node
+		liveForeign := func(arg int) {
+			k := 0
+			net.Interpose = func(f *sim.Frame) []*sim.Frame {
+				out := []*sim.Frame{f}
+				k++
+				if f.MsgType == 2 && int(f.To) <= n && (k+arg)%3 == 0 && info.LiveForeign < 200 {
+					g := *f
+					g.Injected = true
+					g.From = outsider
+					if (k+arg)%5 == 0 {
+						g.From = unknown
+					}
+					out = append(out, &g)
+					info.LiveForeign++
+				}
+				return out
+			}
+		}
 		for _, op := range c.Ops {
 			topic := fmt.Sprintf("t%d", op.Topic)
 			switch op.Kind {
-			case 0, 1: // keygen
+			case 0, 1, 12: // keygen
 				who := append([]uint16(nil), parts...)
-				complete := op.Kind == 0
+				complete := op.Kind == 0 || op.Kind == 12
+				if op.Kind == 12 {
+					liveForeign(op.Arg)
+				}
 				if !complete {
 					m := op.Who % n
 					who = append(who[:m], who[m+1:]...)
@@ -238,7 +262,9 @@ func runC12(c c12Case) *vh.Outcome {
 				ctxs, cns := ctxFor(who)
 				calls := mkCalls("keygen", "DKG", who, ctxs)
 				info.Attempts = append(info.Attempts, fmt.Sprintf("keygen complete=%v", complete))
-				if !runAttempt(calls, saf, nil) {
+				ok := runAttempt(calls, saf, nil)
+				net.Interpose = nil
+				if !ok {
 					return
 				}
 				for _, cn := range cns {
@@ -252,9 +278,12 @@ func runC12(c c12Case) *vh.Outcome {
 				} else {
 					usedTopics[key] = "failed"
 				}
-			case 2, 3, 4: // sign
+			case 2, 3, 4, 11: // sign
 				who := append([]uint16(nil), parts...)
-				complete := op.Kind == 2
+				complete := op.Kind == 2 || op.Kind == 11
+				if op.Kind == 11 {
+					liveForeign(op.Arg)
+				}
 				if op.Kind == 3 {
 					m := op.Who % n
 					who = append(who[:m], who[m+1:]...)
@@ -282,7 +311,9 @@ func runC12(c c12Case) *vh.Outcome {
 						}
 					}
 				}
-				if !runAttempt(calls, saf, hook) {
+				ok := runAttempt(calls, saf, hook)
+				net.Interpose = nil
+				if !ok {
 					return
 				}
 				for _, cn := range cns {
@@ -509,7 +540,10 @@ func runC12(c c12Case) *vh.Outcome {
 		return o
 	}
 	o.Key = fmt.Sprintf("%+v", c)
-	o.NonTrivial = info.Retries > 0 || info.Overlaps > 0 || info.LateDelivered > 0 || info.Foreign > 0
+	o.NonTrivial = info.Retries > 0 || info.Overlaps > 0 || info.LateDelivered > 0 || info.Foreign > 0 || info.LiveForeign > 0
+	if info.LiveForeign > 0 {
+		o.Classes = append(o.Classes, "foreign-frames-during-session")
+	}
 	o.Classes = append(o.Classes, fmt.Sprintf("silent=%v", c.Silent))
 	if info.Retries > 0 {
 		o.Classes = append(o.Classes, "retry-after-failed-attempt")
